@@ -651,14 +651,98 @@ def r4_6(repo: Repo) -> RuleResult:
     return rr
 
 
-RULES = [r4_1, r4_2, r4_3, r4_4, r4_5, r4_6]
+def r4_7(repo: Repo) -> RuleResult:
+    """The flush routines work on the live region [lower, upper) of the buffer; the slot at `upper` itself holds stale
+    data from earlier flushes.  A decision taken from a read of coo.<array>[upper] therefore depends on the history of
+    the buffer - e.g. the last run of equal keys was dropped whenever the stale key happened to equal it."""
+    rr = RuleResult("R4.7", "the duplicate-summing routines never read a buffer slot at or beyond the live upper bound", floor=1)
+    for name in ("coo_sum_duplicates", "merge_sum_duplicates"):
+        f = repo.func(COO_FILE, name)
+        sd = single_defs(f)
+        uppers = {k for k, v in sd.items() if norm(v) == "coo.ind[0]"} | {"coo.ind[0]"}
+        sites = [n for n in walk_no_nested(f.node) if isinstance(n, ast.Subscript) and isinstance(n.ctx, ast.Load) and isinstance(n.value, ast.Attribute)
+                 and norm(n.value.value) == "coo" and n.value.attr in ("row", "col", "val", "key") and norm(n.slice) in uppers]
+        if sites:
+            for n in sites:
+                rr.bad(f, "coo.%s[<upper bound>]" % n.value.attr, "`%s` reads the slot one past the live region: it holds whatever an earlier flush left "
+                       "there, so the outcome (here: whether the last run of equal keys is written back) depends on the buffer's history - events are "
+                       "lost for some volumes and buffer sizes and not for others" % norm(n), n.lineno)
+        else:
+            rr.ok(f, "reads of the coo arrays", "no read at the exclusive upper bound of the live region", f.node.lineno)
+    return rr
+
+
+def r4_8(repo: Repo) -> RuleResult:
+    """coo_sum_duplicates is also called when nothing has been appended since the last flush (the event that triggers
+    the flush is the last one of the buffer).  Then the region [lower, upper) is empty and the fill pointer must stay
+    at `lower`: the function is evaluated symbolically on the path where its loops run zero times and every test
+    `lower < upper` is false, and the value stored in coo.ind[0] must be `lower`."""
+    from .. import sym
+    from .common import rel_of
+
+    rr = RuleResult("R4.8", "an empty flush leaves the fill pointer where it was (zero-trip path of coo_sum_duplicates evaluated symbolically)", floor=1)
+    f = repo.func(COO_FILE, "coo_sum_duplicates")
+    env: Dict[str, ast.AST] = {}
+    lower = upper = None
+    stored = None
+
+    def ev(e: ast.AST):
+        return sym.poly(sym.substitute(e, {k: v for k, v in env.items()}))
+
+    def run(stmts) -> None:
+        nonlocal lower, upper, stored
+        for st in stmts:
+            if isinstance(st, (ast.For, ast.While)):
+                continue  # zero-trip
+            if isinstance(st, ast.If):
+                r = rel_of(st.test)
+                nonempty = None
+                if r is not None and lower is not None and upper is not None:
+                    a, b = (sym.poly(sym.substitute(ast.parse(x, mode="eval").body, env)) for x in (r[1], r[2])) if r[0] in ("lt", "le") else (None, None)
+                    if r[0] == "lt" and a == lower and b == upper:
+                        nonempty = True
+                if nonempty:
+                    run(st.orelse)
+                    continue
+                touched = {x.id for s_ in st.body + st.orelse for x in ast.walk(s_) if isinstance(x, ast.Name) and isinstance(x.ctx, ast.Store)}
+                writes_ind = any(isinstance(x, ast.Assign) and norm(x.targets[0]) == "coo.ind[0]" for s_ in st.body + st.orelse for x in ast.walk(s_))
+                if (touched & set(env)) or writes_ind:
+                    raise AnalysisError("R4.8: cannot decide the test `%s` on the empty-region path of coo_sum_duplicates" % norm(st.test))
+                continue
+            if isinstance(st, ast.Assign) and len(st.targets) == 1:
+                t = st.targets[0]
+                if isinstance(t, ast.Name):
+                    env[t.id] = sym.substitute(st.value, env)
+                    if norm(st.value) == "coo.ind[0]":
+                        upper = ev(st.value)
+                    if "coo.min[0]" in norm(st.value):
+                        lower = ev(ast.Name(id=t.id, ctx=ast.Load()))
+                elif norm(t) == "coo.ind[0]":
+                    stored = ev(st.value)
+            elif isinstance(st, ast.AugAssign) and isinstance(st.target, ast.Name) and st.target.id in env:
+                env[st.target.id] = ast.BinOp(left=env[st.target.id], op=st.op, right=sym.substitute(st.value, env))
+
+    run(f.node.body)
+    if lower is None or upper is None or stored is None:
+        raise AnalysisError("R4.8: lower / upper bound or the store to coo.ind[0] not recognised in coo_sum_duplicates")
+    # on the empty path upper == lower
+    if stored == lower:
+        rr.ok(f, "coo.ind[0] on an empty flush", "stays at the lower bound `%s`" % sym.show(lower), f.node.lineno)
+    else:
+        rr.bad(f, "coo.ind[0] on an empty flush", "with nothing appended since the last flush the fill pointer becomes `%s` instead of staying at `%s`: a "
+               "stale slot is made live and its event is counted again (exactly when the event that triggers a flush is the last one of the buffer)"
+               % (sym.show(stored), sym.show(lower)), f.node.lineno)
+    return rr
+
+
+RULES = [r4_1, r4_2, r4_3, r4_4, r4_5, r4_6, r4_7, r4_8]
 
 CLAIM = (
     "R4.1 every call of a reallocate-and-return accumulator (coo_append) re-binds the result to the l-value it was "
     "called on; R4.2 the de-duplication key col + array_mul*row is injective (array_mul = n_windows*n_unique_tokens + c, "
     "c >= 0; col = context + i*n_unique_tokens) in all four build kernels (symbolic arithmetic); R4.3 worker chunks are "
     "exactly the generated boundary pairs and the boundaries are chained from 0 to len(data); R4.4 attribute-level "
-    "definite assignment along the fit / fit_transform helper sequences of each concrete class; R4.5 the hand-duplicated blocks of coo_utils (two flush triggers, three accumulate-or-advance steps, four buffer copies) agree with each other; R4.6 precision flow: keys / coordinates are only staged in containers wide enough to hold them exactly."
+    "definite assignment along the fit / fit_transform helper sequences of each concrete class; R4.5 the hand-duplicated blocks of coo_utils (two flush triggers, three accumulate-or-advance steps, four buffer copies) agree with each other; R4.6 precision flow: keys / coordinates are only staged in containers wide enough to hold them exactly; R4.7 the duplicate-summing routines never read a buffer slot at the exclusive upper bound of the live region (stale data); R4.8 on the zero-trip path of coo_sum_duplicates (empty region) the value stored in coo.ind[0] is symbolically the lower bound."
 )
 NOT_DECIDED = (
     "that the merge/sort/grow arithmetic of coo_utils never overruns its buffers for all event volumes, and independence "
